@@ -16,6 +16,7 @@ Inductive pob := PO (ret : Z) (pan : bool) (b m l : Z).
 
 Inductive case :=
 | CubicCase (mds0 : Z) (reno : bool) (steps : list (op * ob))
+| CubicCaseW (mds0 : Z) (reno : bool) (icw imax : Z) (steps : list (op * ob))
 | PacerCase (steps : list (pop * pob))
 | BwCase (bytes delta ret : Z) (pan : bool).
 
@@ -64,6 +65,7 @@ Inductive obs :=
 Definition model_obs (c : case) : obs :=
   match c with
   | CubicCase m r steps => CubicObs (model_steps (new_sender m r defaultInitialRTTns) (map fst steps))
+  | CubicCaseW m r icw imax steps => CubicObs (model_steps (new_sender_w m r icw imax defaultInitialRTTns) (map fst steps))
   | PacerCase steps => PacerObs (model_psteps (new_pacer 0) (map fst steps))
   | BwCase b d _ _ => match bfd b d with Some v => BwObs v false | None => BwObs 0 true end
   end.
@@ -78,6 +80,7 @@ Fixpoint all2 {A} (f : A -> A -> bool) (a b : list A) : bool :=
 Definition check_case (c : case) : bool :=
   match c, model_obs c with
   | CubicCase _ _ steps, CubicObs l => all2 ob_eqb l (map snd steps)
+  | CubicCaseW _ _ _ _ steps, CubicObs l => all2 ob_eqb l (map snd steps)
   | PacerCase steps, PacerObs l => all2 pob_eqb l (map snd steps)
   | BwCase _ _ ret pan, BwObs r p => (r =? ret) && beqb p pan
   | _, _ => false
